@@ -21,6 +21,8 @@ func main() {
 	dump := flag.Bool("dump", false, "print every obligation")
 	noEvidence := flag.Bool("no-evidence", false, "do not write the evidence file (self-test runs)")
 	goarch := flag.String("goarch", "amd64", "GOARCH of the analysed build variant")
+	outFlag := flag.String("out", "", "directory for violation reports (default <verif>/out)")
+	selftest := flag.String("selftest", "", "JSON file with self-test results to merge into the evidence (thorough tier)")
 	flag.Parse()
 	if *explain != "" {
 		if err := chk.Explain(*explain); err != nil {
@@ -38,6 +40,9 @@ func main() {
 		seed, _ = strconv.Atoi(s)
 	}
 	outDir := filepath.Join(*verif, "out")
+	if *outFlag != "" {
+		outDir = *outFlag
+	}
 	os.MkdirAll(outDir, 0o755)
 	os.MkdirAll(filepath.Join(*verif, "evidence"), 0o755)
 	report := filepath.Join(outDir, *prop+"."+*tier+".json")
@@ -66,6 +71,11 @@ func main() {
 	res := chk.RunProperty(p, *prop, *tier, chk.AllRules(), known)
 	if len(res.Stats) == 0 {
 		fail("no rules registered for " + *prop)
+	}
+	if *selftest != "" {
+		if err := res.MergeSelftest(*selftest); err != nil {
+			fail("selftest results: " + err.Error())
+		}
 	}
 	if *dump {
 		for _, o := range res.Obs {
